@@ -722,3 +722,13 @@ fn ol_sort(v: &mut Vec<Uint>)
 }
 
 } // verus!
+
+verus! {
+/// Rconst outlining of `Uint::ONE` (associated constants of foreign types are unsupported). Trusted contract: the value 1.
+#[verifier::external_body]
+fn ol_uint_one() -> (r: Uint)
+    ensures uv(r) == 1
+{
+    Uint::ONE
+}
+} // verus!
